@@ -574,7 +574,13 @@ pub fn eval(expr: Node) -> Result<Number, Box<dyn error::Error>> {
         Med(args) => {
             let mut results = vec![];
             for arg in <Vec<Node> as Clone>::clone(&args).into_iter() {
-                results.push(eval(arg).unwrap());
+                results.push(eval(arg)?);
+            }
+            if results
+                .iter()
+                .any(|result| matches!(result, Number::Float(x) if x.is_nan()))
+            {
+                return Ok(Number::Float(f64::NAN));
             }
             results.sort_by(|a, b| {
                 let a = match a {
